@@ -430,12 +430,15 @@ func (c *Ctx) rulesC03(a *coreAnchors, la *LockAnalysis) {
 	// PrependMut's own disposing refusal
 	if f := a.prependMut; f != nil {
 		var first ssa.Instruction
-		for _, w := range writesOfFieldIn(f, a.fQueue) {
-			first = w.Instr
-			break
+		for _, hf := range c.hostedFns(f) {
+			for _, w := range writesOfFieldIn(hf, a.fQueue) {
+				if first == nil {
+					first = w.Instr
+				}
+			}
 		}
 		if first != nil {
-			c.requireGuards("C03.entry", funcKey(f)+" queue write", first, a.notDisposing())
+			c.requireGuardsHosted("C03.entry", funcKey(f)+" queue write", first, f, a.notDisposing())
 		} else {
 			c.undecided("C03.entry: PrependMut no longer writes Machine.queue")
 		}
